@@ -43,7 +43,43 @@ CHECKS["C01"] = dict(
     ref="DESIGN.md §5/C01",
 )
 
-PENDING = {k: "claimed in DESIGN.md; check not built yet at this commit, so not claimed here" for k in ['C05','C06','C07','C08','C12','C14','C17']}
+CHECKS["C05"] = dict(
+    level="exploration",
+    text="Every fixture, seeded library-generated projects, live API-built objects, and seeded perturbations of their value-bearing payloads (CVAL to arbitrary int32, option/other CHDT bytes, SLNK/SLnK entries, PDTA bytes, CMID and ~30 header fields) go through n>=1 load/save cycles compared byte for byte; every save is bracketed by snapshot equality (purity) and a second save; a write fault (EIO, ENOSPC, cancellation, short write) is injected at every write-call index of every unperturbed file (sweep) and at seeded indices elsewhere, after which the object must be unchanged and the next clean save identical; two objects' suspended chunks() writers are advanced alternately under seeded and strictly alternating schedules and must produce the bytes of an uninterrupted save.",
+    note="Sampled over perturbations; complete over write-call indices for unperturbed files (every 7th call for files with more than 400 write calls in the quick tier). One open known finding (F8: colliding SLnK slot claims) is reported as KNOWN-FINDING. Perturbed files the library refuses to load are outside the domain and are counted in coverage.skipped.",
+    technique="deterministic simulation with fault injection: load/save cycle histories over stored-value corruption, write-fault injection by call index, seeded interleaving of suspended writers",
+    ref="DESIGN.md §5/C05",
+)
+CHECKS["C07"] = dict(
+    level="exploration",
+    text="Seeded histories of 1-25 connect/disconnect requests over two projects in every operand form the API accepts (method call, >>, <<, ModuleList chains, ~, lists, repeated members, self pairs, output, operands owned by the other project), plus all sequences of up to 2 (quick) / 3 (thorough) single-pair requests over a 3-module project; after every request the edge multiset derived from the link tables is compared with an edge-set reference model and the four tables are checked entry by entry for mutual consistency; cross-project requests must be refused and leave both projects' tables untouched.",
+    note="Sampled beyond the small-scope enumeration. Request semantics (from x to pairs; ~ on either side = disconnect) come from the docstrings; slot positions are not prescribed. For a list request containing a foreign member, already processed local pairs may or may not have been applied.",
+    technique="deterministic simulation: seeded operation histories over two parties against an edge-set reference model",
+    ref="DESIGN.md §5/C07",
+)
+CHECKS["C08"] = dict(
+    level="exploration",
+    text="C07's histories on one project with 1-4 save -> restart -> load boundaries (the actor keeps linking on the loaded project): the four link tables of every module (trailing freed slots stripped), the edge set, and mutual consistency of the loaded tables are compared at each restart; in slot-less mode every SLnK chunk is removed from the saved bytes before loading (graph, in-link order and consistency demanded, not slot numbers). Reach probes confirm freed slots in the middle and partial SLnK presence are hit thousands of times per run.",
+    note="Sampled. Slot-less files are those where no module carries SLnK; arbitrary partial removal is not generated (ambiguous files no writer produces) - partial presence is explored as the library's own writer produces it.",
+    technique="deterministic simulation: seeded link histories crossing save/restart/load, incl. foreign slot-less files",
+    ref="DESIGN.md §5/C08",
+)
+CHECKS["C12"] = dict(
+    level="exploration",
+    text="Seeded histories of sub-field writes (note controller/effect/XX/YY; the six visualization parts; MIDI-in always/channel; project sync flags), whole-word writes, primary note fields over their domains, whole-pattern byte images of valid cells, and save -> restart -> load; after every write every sub-field of the touched word, Note.raw_data (documented 8-byte packing) and Pattern.raw_data (row-major join) are compared with an integer field model; a re-save after restart must be byte-identical.",
+    note="Sampled history exploration, NOT the complete enumeration of (old word, sub-field, new value) triples the statement mentions: a setter that fails only for one specific old value may be missed. Field layout taken from docs/sunvox-file-format.rst.",
+    technique="deterministic simulation: seeded overwrite histories of packed words against a field model, across restart",
+    ref="DESIGN.md §5/C12",
+)
+CHECKS["C14"] = dict(
+    level="exploration",
+    text="Seeded histories over 2-3 projects and a pool of free modules/patterns: attach_module, new_module, += (modules, patterns, lists), attaching twice, attaching an object owned by another project (must raise the ownership error and leave the ownership snapshot of every project identical), attach_pattern (pattern/clone/None), note.mod get/set at modules, gaps, zero and beyond the end, and save -> restart -> load including files whose unlinked module sections were blanked to SEND (loaded projects with arbitrary gap patterns); after every op index==position, parent, output-at-0 and the slot model (lowest empty position, else append; nothing else moves) are checked on every project.",
+    note="Sampled. Re-attaching a pattern to its own project and note.mod with a foreign project's module are not generated (statement silent).",
+    technique="deterministic simulation: seeded multi-party ownership histories against a slot/owner reference model, with restart",
+    ref="DESIGN.md §5/C14",
+)
+
+PENDING = {k: "claimed in DESIGN.md; check not built yet at this commit, so not claimed here" for k in ['C06','C17']}
 
 
 def main():
